@@ -100,7 +100,7 @@ var multiOps = map[string]bool{"RemoveGapSites": true, "RemoveCharacterSites": t
 	"Compress": true, "Mask": true, "MaskPositions": true, "MaskOccurences": true, "MaskUnique": true, "SubAlign": true, "RefCoordinates": true,
 	"Replace": true, "AppendSeqIdentifier": true, "TrimSequences": true, "ShuffleSequences": true, "Swap": true,
 	"Recombine": true, "Mutate": true, "AddGaps": true, "Sample": true, "SelectSites": true, "RefSites": true,
-	"InversePositions": true, "Transpose": true, "CodonAlign": true, "InverseCoordinates": true}
+	"InversePositions": true, "Transpose": true, "CodonAlign": true, "InverseCoordinates": true, "ToUpper": true, "ToLower": true}
 
 type sideFile struct {
 	path  string
@@ -788,6 +788,22 @@ func (c *cliFront) plan(h *heapRun, o *obj, st Step) (*cliCall, string) {
 			return nil, "bag"
 		}
 		return &cliCall{argv: []string{"transpose"}}, ""
+	case "Concat", "Append":
+		// the other alignment goes through a second file (same --alphabet for both)
+		oo := h.get(ai(a, "other"))
+		if !needsAlign() || oo.al == nil || oo.sb.Alphabet() != o.sb.Alphabet() || oo == o {
+			return nil, "bag"
+		}
+		ob, _, ok := fastaOf(oo)
+		of := filepath.Join(c.dir, "other.fa")
+		if !ok || os.WriteFile(of, ob, 0o644) != nil {
+			return nil, "fasta"
+		}
+		return &cliCall{argv: []string{strings.ToLower(st.Op), of}}, ""
+	case "ToUpper":
+		return &cliCall{argv: append([]string{"toupper"}, un...)}, ""
+	case "ToLower":
+		return &cliCall{argv: append([]string{"tolower"}, un...)}, ""
 	// ---- seeded random commands: judged by the same relations as the library calls (any admissible outcome)
 	case "ShuffleSequences":
 		return &cliCall{argv: append([]string{"shuffle", "seqs", "--seed", strconv.Itoa(ai(a, "seed"))}, un...)}, ""
